@@ -176,6 +176,8 @@ def run_stream(pid, name, cases, model_ok, level, oracle=None, desc="", nontrivi
         if nt:
             key = "\n".join(c.to_text().split("\n")[1:])
             seen.add(hash(key))
+    res["model_compared"] = bool(mod is not None and any(not c.meta.get("twin") for c in cases))
+    res.setdefault("unaligned_runs", 0)
     if t4_sample and mod is not None:
         import t4
         sample = [c for c in cases if not c.meta.get("twin") and not c.faults and c.crash < 0 and not c.meta.get("pause")][:t4_sample]
